@@ -14,6 +14,7 @@ package main
 import (
 	"bytes"
 	"fmt"
+	"math"
 	"strconv"
 	"strings"
 
@@ -351,6 +352,82 @@ func c09Repeat(c *vh.Ctx) {
 			case ro.out != want.String():
 				c.Fail(vh.Failure{Kind: "oracle", What: fmt.Sprintf("Execute #%d: output of repeated uses differs from the same uses on fresh interpreters", r+1), Case: cs,
 					Got: strconv.Quote(ro.out), Want: strconv.Quote(want.String())})
+			}
+		}
+	}
+	// correspondence: the Lean cache model (runUses from an empty cache) on the executed uses of each session
+	if c.HasLean() {
+		var reqs []string
+		var ref []int
+		for si, s := range sessions {
+			parts := []string{"seq", map[bool]string{false: "0", true: "1"}[s.Chars]}
+			ok := len(outs[si]) == len(s.Runs)
+			for _, run := range s.Runs {
+				for _, u := range run {
+					up := []string{vh.HxS(u.Fmt)}
+					for _, a := range u.Args {
+						v, vok := fldArg(a).view()
+						if !vok {
+							ok = false
+							break
+						}
+						up = append(up, fmt.Sprintf("%d:%s:%016x", map[bool]int{false: 0, true: 1}[v.IsStr], vh.Hx(v.S), math.Float64bits(v.N)))
+					}
+					parts = append(parts, strings.Join(up, ","))
+					if u.expectErr() != "" {
+						break
+					}
+				}
+			}
+			if ok {
+				reqs = append(reqs, strings.Join(parts, " "))
+				ref = append(ref, si)
+			}
+		}
+		for k, a := range c.LeanBatch(reqs) {
+			si := ref[k]
+			s := sessions[si]
+			res := strings.Split(a, "|")
+			pos := 0
+			for r, run := range s.Runs {
+				var want strings.Builder
+				wantErr := ""
+				unmodelled := false
+				for _, u := range run {
+					if pos >= len(res) {
+						unmodelled = true
+						break
+					}
+					x := res[pos]
+					pos++
+					switch {
+					case strings.HasPrefix(x, "ok:"):
+						want.Write(vh.Unhx(strings.TrimPrefix(x, "ok:")))
+						want.WriteString("\x02")
+					case strings.HasPrefix(x, "err:"):
+						wantErr = strings.ReplaceAll(x, ":", " ")
+					default:
+						unmodelled = true
+					}
+					if wantErr != "" || unmodelled || u.expectErr() != "" {
+						break
+					}
+				}
+				if unmodelled {
+					c.Hit("lean-seq:unmodelled")
+					break
+				}
+				c.Trace()
+				ro := outs[si][r]
+				gotErr := ""
+				if ro.err != "" {
+					gotErr = errClass(ro.err)
+				}
+				if ro.panic != "" || ro.out != want.String() || gotErr != wantErr {
+					c.Fail(vh.Failure{Kind: "correspondence", What: fmt.Sprintf("Lean cache model (runUses) and the reused Interpreter differ in Execute #%d", r+1),
+						Case: map[string]interface{}{"repeat_session": s, "failing_execute": r}, Got: strconv.Quote(ro.out) + " " + gotErr + ro.panic, Want: strconv.Quote(want.String()) + " " + wantErr})
+					break
+				}
 			}
 		}
 	}
